@@ -1220,5 +1220,3 @@ func fixLits(si *schemaInfo, mi *msgInfo, v *V) {
 		}
 	}
 }
-
-func engineReflectNil(cfg config, o *out) {}
